@@ -64,6 +64,15 @@ def nest3_bases(tier):
 
 def cases(tier, inst):
     k = 3 if tier == "quick" else 4
+    # rule trees whose branches join a further variable: every permutation mode of both domains must give the same
+    # multiset of conclusions (all tree/kind assignments, also those whose else-if reading C12 leaves open)
+    from . import c12
+    from ..space import binary_shapes
+    for n in range(2, (4 if tier == "quick" else 5) + 1):
+        for sh in binary_shapes(n):
+            node = c12.label(sh, [0])
+            for kinds in c12.kinds_for(node, n, unambiguous_only=False):
+                yield ("rule", node, kinds)
     # three variables: the orbit contains every declaration order (operator caches are keyed by variable ids)
     for i, t in enumerate(nest3_bases(tier)):
         if tier == "thorough" or i % 3 == 0:
@@ -76,6 +85,15 @@ def cases(tier, inst):
     for a, b, c in itertools.product(XY_REP[:3], repeat=3):
         yield (("and", ("or", a, b), c), k)
         yield (("or", a, ("and", b, c)), k)
+    # only some of the variables selected (the other one is a join variable that is projected away)
+    proj = leaves_xy()[:7]
+    for a, b, c in itertools.permutations(proj, 3):
+        if tier == "quick" and hash((a, b, c)) % 3:
+            continue
+        for which in ("x", "y"):
+            yield (("and", ("or", a, b), c), 3, which)
+            if tier == "thorough":
+                yield (("or", ("and", a, b), c), 3, which)
     if tier == "thorough":
         for t in trees_by_depth(XY_REP, 2):
             if Q.depth(t) == 2 and t[0] != "not":
@@ -160,11 +178,37 @@ def orbit(base, k):
     return seen
 
 
+def run_rule_case(case, inst):
+    from . import c12
+    _, node, kinds = case
+    results = {}
+    for xperm in (0, 1, 2):
+        for zperm in (0, 1, 2):
+            out, exp = c12.join_make_and_eval_twice(("zjoin", node, kinds, True), inst, xperm, zperm)
+            # the statement promises the result SET (how often a conclusion that does not mention z is repeated is
+            # not part of it)
+            results[(xperm, zperm)] = sorted(set(out[0])) if isinstance(out[0], list) else out[0]
+    base = results[(0, 0)]
+    res = {"ok": True, "nontrivial": isinstance(base, list) and len(base) > 0, "transitions": len(results),
+           "tags": ["family=rule", f"nodes={c12.size(node)}"], "outcome": str(len(base)) if isinstance(base, list) else "exc"}
+    for perm, got in results.items():
+        if got != base:
+            res.update(ok=False, sig="rule:domain-permutation-changes-result",
+                       obs=(f"x domain permutation {perm[0]}, z domain permutation {perm[1]}", got[:12] if isinstance(got, list) else got),
+                       exp=("as given", base[:12] if isinstance(base, list) else base))
+            break
+    return res
+
+
 def run_case(case, inst):
-    tree, k = case
+    if case[0] == "rule":
+        return run_rule_case(case, inst)
+    tree, k = case[0], case[1]
     three = "z" in Q.cond_vars(tree)
     vars0 = VARS3 if three else VXY
     sel0 = (X, Y, Z) if three else (X, Y)
+    if len(case) > 2:
+        sel0 = (("v", case[2]),)
     base = ((tree,), vars0, sel0, 0)
     members = orbit(base, k)
 
@@ -189,7 +233,7 @@ def run_case(case, inst):
                 q, world = qw
                 ref = Q.Ref(world, inst)
                 sols = ref.solutions(("Q", "an", "setof", sel0, (tree,), vars0))
-                exp = frozenset(frozenset((n, Q.norm(env[n])) for n in [v[0] for v in vars0]) for env in sols)
+                exp = frozenset(frozenset((n, Q.norm(env[n])) for n in [s[1] for s in sel0]) for env in sols)
                 total = 1
                 for v in vars0:
                     total *= len(ref.domain(v))
@@ -216,9 +260,14 @@ def run_case(case, inst):
 
 
 def describe(case, inst):
-    tree, k = case
+    if case[0] == "rule":
+        from . import c12
+        return (c12.describe(("zjoin", case[1], case[2], True), inst)
+                + "\n# C18: the same rule tree over the x / z domains as given, reversed and rotated must conclude the same")
+    tree, k = case[0], case[1]
     three = "z" in Q.cond_vars(tree)
-    return (Q.up_world(RICH, inst) + "\nbase: " + Q.up_query(("Q", "an", "setof", (X, Y, Z) if three else (X, Y), (tree,),
+    sel = (("v", case[2]),) if len(case) > 2 else ((X, Y, Z) if three else (X, Y))
+    return (Q.up_world(RICH, inst) + "\nbase: " + Q.up_query(("Q", "an", "setof", sel, (tree,),
                                                               VARS3 if three else VXY), inst)
             + f"\n# every query reachable from the base by <= {k} rewrites (swap operands, re-associate, and_()/or_() form, "
               "several conditions, mirror a comparison, contains<->in_, declaration order, selection order, domain "
